@@ -7,16 +7,18 @@
      match.go   compiledRegexCache loader + getRegexp +
                 matchWithGroups                          -> [match_bytes] over [glob_match]
      match.go   FindRouteWithGroups                      -> [find_route]
-     forward.go substituteBackendParams                  -> [impl_subst]  (spec: [spec_subst])
+     forward.go substituteBackendParams                  -> [impl_subst]  (spec: [spec_subst];
+                                                            before fix 23c72fc: [old_subst])
      forward.go findRoute (route lookup part)            -> [route_outcome]
 
    The Go matcher lowercases pattern and host (strings.ToLower), turns the pattern into the regexp
    ^...$ with QuoteMeta, "?" -> "(.)" and "*" -> "(.*?)", and returns the submatches.  RE2/Go
    regexps follow leftmost-first (Perl) priorities, so with both ends anchored the reported groups
    are the ones a backtracking matcher finds when every lazy star tries the shortest text first.
-   The one place where the regexp differs from the glob reading is "." : without the (?s) flag it
-   does not match U+000A.  The matcher is therefore parameterised by [dot], the set of code points
-   a wildcard may consume: [spec_dot] = everything, [impl_dot] = everything but 10.            *)
+   The matcher is parameterised by [dot], the set of code points a wildcard may consume:
+   [spec_dot] = everything; [impl_dot] = what the code's regexp "." matches: since fix 0f43e55 the
+   regexp carries (?s), so everything; [old_dot] = the pre-fix code (no (?s): everything but
+   U+000A, finding C29-1).  [old_subst] is the pre-fix sequential ReplaceAll (findings C29-2/3). *)
 From Coq Require Import List NArith Bool.
 From Verif Require Import Base.Text.
 Import ListNotations.
@@ -81,7 +83,8 @@ Section Match.
 End Match.
 
 Definition spec_dot (c : N) : bool := true.
-Definition impl_dot (c : N) : bool := negb (c =? 10).   (* regexp "." without (?s) *)
+Definition impl_dot (c : N) : bool := true.             (* regexp "(?s)." : today's code *)
+Definition old_dot (c : N) : bool := negb (c =? 10).    (* PRE-FIX (before 0f43e55): "." without (?s) *)
 
 (* matchWithGroups(s, pattern) on Go strings (bytes): both sides lowercased, groups re-encoded *)
 Definition match_bytes (dot : N -> bool) (s pattern : list N) : option (list (list N)) :=
@@ -89,7 +92,7 @@ Definition match_bytes (dot : N -> bool) (s pattern : list N) : option (list (li
   let h := lower_cps (utf8_decode s) in
   option_map (map utf8_encode) (glob_match dot p h).
 
-(* trigger of finding 1: the (lowercased) host contains a line feed *)
+(* trigger of (fixed) finding 1: the (lowercased) host contains a line feed *)
 Definition has_lf (s : list N) : bool := existsb (fun c => c =? 10) (utf8_decode s).
 
 (* ---------- ClearVirtualHost ---------- *)
@@ -199,6 +202,28 @@ Fixpoint parse (n : N) (t : list N) : list tok :=
 Definition spec_subst (t : list N) (gs : list (list N)) : list N :=
   flat_map (expand gs) (parse (N.of_nat (length gs)) t).
 
+(* substituteBackendParams as it is today (fix 23c72fc): one pass over the template, "$" + maximal
+   digit run is a parameter iff paramIndex accepts the run: non-empty, no leading zero, AT MOST 9
+   DIGITS, value <= len(groups).  (The early return for no groups / no "$" yields the same text.) *)
+Definition impl_valid_index (n : N) (ds : list N) : bool :=
+  Nat.leb (length ds) 9 && valid_index n ds.
+
+Fixpoint impl_parse (n : N) (t : list N) : list tok :=
+  match t with
+  | [] => []
+  | c :: r =>
+      let toks := impl_parse n r in
+      if c =? dollar then
+        let ds := lead_digits r in
+        if impl_valid_index n ds then TRef ds :: skipn (length ds) toks else TLit c :: toks
+      else TLit c :: toks
+  end.
+
+Definition impl_subst (t : list N) (gs : list (list N)) : list N :=
+  flat_map (expand gs) (impl_parse (N.of_nat (length gs)) t).
+
+(* ---------- PRE-FIX substitution (before 23c72fc), kept for the record of findings C29-2/3 ---------- *)
+
 (* fmt.Sprintf("%d", n) *)
 Fixpoint dec_fuel (f : nat) (n : N) (acc : list N) : list N :=
   match f with
@@ -237,7 +262,7 @@ Fixpoint replace_all (old new : list N) (skip : nat) (t : list (N * bool)) : lis
       end
   end.
 
-(* the loop of substituteBackendParams: for i := len(groups); i >= 1; i-- { ReplaceAll("$i", groups[i-1]) } *)
+(* the loop of the PRE-FIX substituteBackendParams: for i := len(groups); i >= 1; i-- { ReplaceAll("$i", groups[i-1]) } *)
 Fixpoint subst_loop (i : nat) (gs : list (list N)) (t : list (N * bool)) : list (N * bool) * bool :=
   match i with
   | O => (t, false)
@@ -247,18 +272,18 @@ Fixpoint subst_loop (i : nat) (gs : list (list N)) (t : list (N * bool)) : list 
       (t2, tn1 || tn2)
   end.
 
-Definition impl_subst_marked (t : list N) (gs : list (list N)) : list (N * bool) * bool :=
+Definition old_subst_marked (t : list N) (gs : list (list N)) : list (N * bool) * bool :=
   match gs with
   | [] => (map (fun c => (c, false)) t, false)
   | _ => subst_loop (length gs) gs (map (fun c => (c, false)) t)
   end.
 
-Definition impl_subst (t : list N) (gs : list (list N)) : list N := map fst (fst (impl_subst_marked t gs)).
+Definition old_subst (t : list N) (gs : list (list N)) : list N := map fst (fst (old_subst_marked t gs)).
 
-(* trigger of finding 2: a later ReplaceAll pass matched text that an earlier pass had inserted *)
-Definition rescans (t : list N) (gs : list (list N)) : bool := snd (impl_subst_marked t gs).
+(* trigger of (fixed) finding 2: a later ReplaceAll pass matched text that an earlier pass had inserted *)
+Definition rescans (t : list N) (gs : list (list N)) : bool := snd (old_subst_marked t gs).
 
-(* trigger of finding 3: the template has "$" + maximal digit run that is NOT a valid index although
+(* trigger of (fixed) finding 3: the template has "$" + maximal digit run that is NOT a valid index although
    a proper prefix of the run is ("$19" with two groups, "$100" with ten) *)
 Fixpoint has_valid_prefix (n : N) (pre rest : list N) : bool :=
   (* pre is the reversed prefix taken so far *)
